@@ -24,7 +24,10 @@ extern ssize_t mpt_qpre(MPT_STRUCT(queue) *queue, size_t len)
 	if (!len) {
 		return 0;
 	}
-	mpt_queue_empty(queue, &low, &high);
+	/* no space left on queue */
+	if (!mpt_queue_empty(queue, &low, &high)) {
+		return MPT_ERROR(MissingBuffer);
+	}
 	total = low + high;
 	
 	/* not enough remaining space */
